@@ -160,7 +160,7 @@ def segmented_docs(fmt, text, recs):
             if text.startswith(d) and go(text[len(d):], recs[j:], nseg + 1):
                 return True
         return False
-    return len(recs) <= 12 and go(text, recs, 0)
+    return len(recs) <= 200 and go(text, recs, 0)
 
 
 def doc_shape(fmt, text, events):
